@@ -14,9 +14,11 @@
 (***************************************************************************)
 EXTENDS Integers
 
-CONSTANT
+CONSTANTS
   \* @type: Int;
-  MAXN
+  MAXN,
+  \* @type: Bool;
+  Guarded      \* FALSE switches the nonce guard off (self-test: the invariant must then fail)
 
 VARIABLES
   \* @type: Int;
@@ -26,13 +28,14 @@ VARIABLES
   \* @type: Bool;
   moved          \* history: the last step changed n other than by +1 on success or by an explicit setting
 
-ConstInit == MAXN \in Int /\ MAXN > 0
+ConstInit == MAXN \in Int /\ MAXN > 0 /\ Guarded = TRUE
+ConstInitBug == MAXN \in Int /\ MAXN > 0 /\ Guarded = FALSE
 
 Init == n = 0 /\ reservedUsed = FALSE /\ moved = FALSE
 
 (* a write, or a read whose authentication succeeds: uses nonce n, then n+1 *)
 OpOk ==
-  /\ n # MAXN                         \* the guard: validate_nonce
+  /\ (Guarded => n # MAXN)            \* the guard: validate_nonce
   /\ reservedUsed' = (reservedUsed \/ n = MAXN)
   /\ n' = n + 1
   /\ moved' = FALSE
